@@ -17,7 +17,8 @@ from vlib import hx, hxl
 
 ID = 'C11'
 COMPONENTS = ['thunkmachine']
-THEOREMS = ['C11_done_is_stable',
+THEOREMS = ['C11_done_is_stable', 'C11_history_independent_if_restored', 'C11_history_independent_if_restored_eq',
+            'C11_memo_transparent', 'C11_restored_nonvacuous',
             'C11_history_independent_unrestored_refuted', 'C11_assert_flag_unrestored_refuted',
             'C11_memo_limit_refuted', 'C11_intern_lookup_sound', 'C11_nonvacuous']
 ALLOWED_AXIOMS = set()
@@ -420,21 +421,22 @@ def run_machines(run, impl_exe, model_exe, machines, restore, label):
 
 
 def interner_cases(rng, n):
+    """interner histories: strings interned, an object whose field names are among them, strings
+    interned later, a probe (interned, interned later, or never)"""
     cases = []
     alpha = ['61', '62', 'e9', '65e5', '1f600']
     for i in range(n):
         def s():
-            return ','.join(rng.choice(alpha) for _ in range(rng.randint(0, 3)))
+            return ','.join(rng.choice(alpha) for _ in range(rng.randint(1, 3)))
         strs = [s() for _ in range(rng.randint(0, 5))]
-        strs = [x for x in strs]
         uniq = []
         for x in strs:
             if x not in uniq:
                 uniq.append(x)
-        fields = ['%x:%x' % (rng.randrange(max(1, len(uniq))), rng.randint(1, 99)) for _ in range(rng.randint(0, 4))] if uniq else []
+        fields = ['%x:%x' % (rng.randrange(len(uniq)), rng.randint(1, 99)) for _ in range(rng.randint(0, 4))] if uniq else []
         later = [s() for _ in range(rng.randint(0, 3))]
-        probe = rng.choice(strs + later + [s()]) if (strs or later) else s()
-        cases.append(('i%d' % i, 'thunkmachine', ['I', '/'.join(strs) if all(strs) or not strs else '/'.join(x for x in strs if x), '/'.join(fields), '/'.join(x for x in later if x), probe]))
+        probe = rng.choice(strs + later + [s()])
+        cases.append(('i%d' % i, 'thunkmachine', ['I', '/'.join(strs), '/'.join(fields), '/'.join(later), probe]))
     return cases
 
 
